@@ -26,6 +26,9 @@ M = [
  ("rs_content_twice", "src/replace_source.rs", "      source_code.push_str(&replacement.content);\n", "      source_code.push_str(&replacement.content);\n      if replacement.start == 7 && replacement.end == 7 { source_code.push_str(&replacement.content); }\n", {"C05": "V"}),
  ("benign_rs_le", "src/replace_source.rs", "      if inner_pos < replacement.start {\n        let end_pos = (replacement.start as usize).min(inner_source_code.len());\n        source_code.push_str(",
   "      if inner_pos <= replacement.start {\n        let end_pos = (replacement.start as usize).min(inner_source_code.len());\n        source_code.push_str(", {"C05": "P2"}),
+ ("rs_flag_reset_removed", "src/replace_source.rs", "      enforce,\n    ));\n    self.is_sorted.store(false, Ordering::SeqCst);", "      enforce,\n    ));", {"C05": "V"}),
+ ("rs_sort_key_order", "src/replace_source.rs", "(a.start, a.end, a.enforce).cmp(&(b.start, b.end, b.enforce))", "(a.start, a.enforce, a.end).cmp(&(b.start, b.enforce, b.end))", {"C05": "V"}),
+ ("rs_clone_flag", "src/replace_source.rs", "      sorted_index: Mutex::new(self.sorted_index.lock().unwrap().clone()),", "      sorted_index: Mutex::new(Vec::new()),", {"C05": "V"}),
  # ---- benign ----
  ("benign_rename_local", "src/encoder.rs", "let mut digit = num & 0b11111;\n    num >>= 5;\n    if num > 0 {\n      digit |= 1 << 5;\n    }\n    out.push(B64_CHARS[digit as usize]);",
   "let mut dg = num & 0b11111;\n    num >>= 5;\n    if num > 0 {\n      dg |= 1 << 5;\n    }\n    out.push(B64_CHARS[dg as usize]);", {"C12": "P", "C17": "P"}),
